@@ -17,6 +17,8 @@ pub enum Kind {
     Unsub,
     Ping,
     Disc,
+    /// QoS 1 publish with a 300-byte payload (larger than a small Maximum Packet Size announced by the server)
+    PubBig,
 }
 
 impl Kind {
@@ -29,10 +31,11 @@ impl Kind {
             Kind::Unsub => "unsub",
             Kind::Ping => "ping",
             Kind::Disc => "disc",
+            Kind::PubBig => "pubbig",
         }
     }
     pub fn is_qos_pub(self) -> bool {
-        matches!(self, Kind::Pub1 | Kind::Pub2)
+        matches!(self, Kind::Pub1 | Kind::Pub2 | Kind::PubBig)
     }
 }
 
@@ -82,6 +85,8 @@ pub struct OpM {
     pub checked_done: bool,
     pub after_ctx_drop: bool,
     pub after_term: bool,
+    /// subscribe only: its SUBSCRIBE has been processed by the context, the stream is registered (session state, survives a resumption)
+    pub registered: bool,
 }
 
 pub struct WorldCfg {
@@ -146,6 +151,8 @@ pub struct World {
     pub light: bool,
     undecided: Vec<usize>,
     pub sub_ids_seen: std::collections::HashMap<u32, usize>,
+    /// Maximum Packet Size announced in CONNACK (None = unlimited)
+    pub max_packet: Option<u32>,
 }
 
 #[derive(Default, Clone, Debug)]
@@ -256,6 +263,7 @@ impl World {
             light: false,
             undecided: Vec::new(),
             sub_ids_seen: std::collections::HashMap::new(),
+            max_packet: cfg.max_packet,
         };
         if w.connack_sum.is_none() {
             w.viol(P_ANY, "boot/connect-failed".into(), format!("connect() did not return ConnectRsp: {:?}", w.sim.last_ctx_result("connect")));
@@ -293,7 +301,14 @@ impl World {
             Kind::Unsub => OpSpec::Unsubscribe(UnsubSpec::simple(&format!("u/{idx}"))),
             Kind::Ping => OpSpec::Ping,
             Kind::Disc => OpSpec::Disconnect(DiscSpec::default()),
+            Kind::PubBig => OpSpec::Publish(PubSpec::simple(1, &format!("o/{idx}"), &Self::big_payload(idx))),
         }
+    }
+
+    pub fn big_payload(idx: usize) -> Vec<u8> {
+        let mut p = format!("p{idx}").into_bytes();
+        p.resize(300, b'#');
+        p
     }
 
     fn new_opm(&self, kind: Kind) -> OpM {
@@ -321,6 +336,7 @@ impl World {
             checked_done: false,
             after_ctx_drop: self.ctx_dropped,
             after_term: self.term.is_some(),
+            registered: false,
         }
     }
 
@@ -389,7 +405,7 @@ impl World {
                 continue;
             }
             match m.kind {
-                Kind::Pub1 | Kind::Sub | Kind::Unsub => {
+                Kind::Pub1 | Kind::PubBig | Kind::Sub | Kind::Unsub => {
                     if !m.ack1 {
                         v.push((i, 1));
                     }
@@ -443,9 +459,9 @@ impl World {
         let mut completes_slot = false;
         let was_dropped = self.m[i].dropped;
         match (kind, stage) {
-            (Kind::Pub1, 1) | (Kind::Pub2, 1) | (Kind::Pub2, 2) => {
+            (Kind::Pub1, 1) | (Kind::PubBig, 1) | (Kind::Pub2, 1) | (Kind::Pub2, 2) => {
                 let ak = match (kind, stage) {
-                    (Kind::Pub1, _) => AckKind::Puback,
+                    (Kind::Pub1, _) | (Kind::PubBig, _) => AckKind::Puback,
                     (Kind::Pub2, 1) => AckKind::Pubrec,
                     _ => AckKind::Pubcomp,
                 };
@@ -546,7 +562,7 @@ impl World {
 
     /// Subscription identifier registered by subscribe op `op` (None until its SUBSCRIBE is on the wire).
     pub fn sub_id_of(&self, op: usize) -> Option<u32> {
-        if self.m[op].req_wire.is_some() {
+        if self.m[op].registered {
             self.m[op].sub_id
         } else {
             None
@@ -604,7 +620,7 @@ impl World {
                     continue;
                 }
                 for m in self.m.iter_mut() {
-                    if m.kind == Kind::Sub && m.req_wire.is_some() && m.sub_id == Some(*s) && !m.after_ctx_drop {
+                    if m.kind == Kind::Sub && m.registered && m.sub_id == Some(*s) && !m.after_ctx_drop {
                         m.expected_items.push(item.clone());
                     }
                 }
@@ -614,9 +630,9 @@ impl World {
             "subid=absent"
         } else if subids.len() > 1 {
             "subid=multiple"
-        } else if self.m.iter().any(|m| m.kind == Kind::Sub && m.sub_id == Some(subids[0]) && m.req_wire.is_some() && !m.stream_dropped) {
+        } else if self.m.iter().any(|m| m.kind == Kind::Sub && m.sub_id == Some(subids[0]) && m.registered && !m.stream_dropped) {
             "subid=registered"
-        } else if self.m.iter().any(|m| m.kind == Kind::Sub && m.sub_id == Some(subids[0]) && m.req_wire.is_some()) {
+        } else if self.m.iter().any(|m| m.kind == Kind::Sub && m.sub_id == Some(subids[0]) && m.registered) {
             "subid=stream-dropped"
         } else {
             "subid=unknown"
@@ -766,6 +782,11 @@ impl World {
     /// Compares what is written on the new connection, before any new request, with the model.
     /// Returns true if the session was expected to be resumed (not expired).
     pub fn resume(&mut self, secs_ago: u64, sei: Option<u32>, expect_expired: bool) -> bool {
+        self.resume_with(secs_ago, sei, None, expect_expired)
+    }
+
+    /// `connack_sei`: Session Expiry Interval property in the CONNACK of the new connection (overrides the requested one)
+    pub fn resume_with(&mut self, secs_ago: u64, sei: Option<u32>, connack_sei: Option<u32>, expect_expired: bool) -> bool {
         let (pubs, rels) = self.unfinished();
         self.sim.cmd(Cmd::MarkDisconnected(secs_ago));
         self.sim.note(|| format!("hook H1: disconnected {secs_ago} s ago; session expiry interval {:?}", sei));
@@ -773,7 +794,8 @@ impl World {
         let conn = ConnSpec { sei, client_id: Some("c".into()), ..Default::default() };
         self.sim.cmd(Cmd::Connect(conn));
         self.sim.settle();
-        self.sim.feed_packet(&SPacket::Connack { session_present: !expect_expired, reason: 0, props: vec![] });
+        let cprops = connack_sei.map(|v| vec![Prop::u32(17, v)]).unwrap_or_default();
+        self.sim.feed_packet(&SPacket::Connack { session_present: !expect_expired, reason: 0, props: cprops });
         self.sim.settle();
         self.sim.parse_wire();
         let after_connect = self.sim.wire.len();
@@ -828,6 +850,10 @@ impl World {
             self.inflight = 0;
             self.wire_inflight = 0;
             self.ids_outstanding.clear();
+            self.inbound_qos2.clear();
+            for m in self.m.iter_mut() {
+                m.registered = false;
+            }
             return false;
         }
         // not expired: PUBLISH entries (DUP=1, same id / topic / payload / qos) in original order, PUBREL entries in original order, nothing else
@@ -945,7 +971,7 @@ impl World {
             match pkt {
                 CPacket::Publish(p) => {
                     let op = p.topic.strip_prefix("o/").and_then(|s| s.parse::<usize>().ok());
-                    let Some(i) = op.filter(|i| *i < self.m.len() && matches!(self.m[*i].kind, Kind::Pub0 | Kind::Pub1 | Kind::Pub2)) else {
+                    let Some(i) = op.filter(|i| *i < self.m.len() && matches!(self.m[*i].kind, Kind::Pub0 | Kind::Pub1 | Kind::Pub2 | Kind::PubBig)) else {
                         self.viol(P_C06_01, "C01/unattributable-packet/PUBLISH".into(), format!("PUBLISH on the wire that no publish() asked for: {}", CPacket::Publish(p.clone()).brief()));
                         continue;
                     };
@@ -959,10 +985,10 @@ impl World {
                     self.m[i].req_wire = Some(wi);
                     let want_q = match self.m[i].kind {
                         Kind::Pub0 => 0,
-                        Kind::Pub1 => 1,
+                        Kind::Pub1 | Kind::PubBig => 1,
                         _ => 2,
                     };
-                    let want_payload = format!("p{i}").into_bytes();
+                    let want_payload = if self.m[i].kind == Kind::PubBig { Self::big_payload(i) } else { format!("p{i}").into_bytes() };
                     if p.dup {
                         self.viol(P_C06, format!("C06/dup-set-on-first-transmission/qos={}", p.qos), format!("op{i}: first PUBLISH has DUP=1"));
                     }
@@ -1029,6 +1055,7 @@ impl World {
                         }
                     }
                     self.m[i].sub_id = sid;
+                    self.m[i].registered = true;
                     self.note_order(i);
                 }
                 CPacket::Unsubscribe(s) => {
@@ -1150,7 +1177,7 @@ impl World {
 
     fn finished(o: &OpM) -> bool {
         match o.kind {
-            Kind::Pub1 | Kind::Sub | Kind::Unsub => o.ack1,
+            Kind::Pub1 | Kind::PubBig | Kind::Sub | Kind::Unsub => o.ack1,
             Kind::Pub2 => o.ack2 || (o.ack1 && !o.ack1_ok),
             _ => true,
         }
@@ -1227,6 +1254,23 @@ impl World {
                 if self.m[i].dropped {
                     // cancelled before the context looked at it: it may or may not have gone out
                     self.m[i].accepted = Some(on_wire);
+                    continue;
+                }
+                if kind == Kind::PubBig && self.max_packet.map(|m| m < 300).unwrap_or(false) {
+                    // larger than the announced Maximum Packet Size: refused, nothing written, no slot taken
+                    // with all R slots in use C10 promises QuotaExceeded and C12 MaximumPacketSizeExceeded: either is accepted then
+                    let refused = matches!(out.as_ref().and_then(|o| o.err()), Some(ErrSum::MaximumPacketSizeExceeded))
+                        || (self.inflight >= self.r && matches!(out.as_ref().and_then(|o| o.err()), Some(ErrSum::QuotaExceeded)));
+                    if on_wire {
+                        self.viol(&["C12"], "C12/oversized-packet-written/pubbig".into(), format!("op{i}: a 300-byte publish was written although Maximum Packet Size is {:?}", self.max_packet));
+                        self.m[i].accepted = Some(true);
+                    } else {
+                        if !refused {
+                            self.viol(&["C12"], "C12/oversized-not-refused/pubbig".into(), format!("op{i}: oversized publish: expected MaximumPacketSizeExceeded, got {:?}", out.as_ref().map(|o| o.brief())));
+                        }
+                        self.m[i].accepted = Some(false);
+                        self.m[i].expected = out.clone();
+                    }
                     continue;
                 }
                 if kind.is_qos_pub() {
@@ -1394,7 +1438,7 @@ impl World {
                     if !self.m[i].checked_done {
                         self.counters.completions_checked += 1;
                         if e != o {
-                            let props = if matches!(kind, Kind::Pub0 | Kind::Pub1 | Kind::Pub2) { P_C05_06 } else { P_C05 };
+                            let props = if matches!(kind, Kind::Pub0 | Kind::Pub1 | Kind::Pub2 | Kind::PubBig) { P_C05_06 } else { P_C05 };
                             self.viol(props, format!("C05/wrong-result/{}", kind.name()), format!("op{i}: expected {}, got {}", e.brief(), o.brief()));
                         } else if self.m[i].ack1 || self.m[i].ack2 {
                             self.counters.acks_matched += 1;
@@ -1413,7 +1457,7 @@ impl World {
                     self.m[i].dropped = true;
                 }
                 (None, Some(o)) => {
-                    let props = if matches!(kind, Kind::Pub0 | Kind::Pub1 | Kind::Pub2) { P_C05_06 } else { P_C05 };
+                    let props = if matches!(kind, Kind::Pub0 | Kind::Pub1 | Kind::Pub2 | Kind::PubBig) { P_C05_06 } else { P_C05 };
                     self.viol(
                         props,
                         format!("C05/completed-without-its-ack/{}", kind.name()),
@@ -1473,7 +1517,7 @@ impl World {
             }
             if let Some(k) = bad {
                 let dup = k > 0 && items[k] == items[k - 1];
-                let props = if items[k].qos == 2 { P_C07_09 } else { P_C07 };
+                let props: &'static [&'static str] = if self.ctx_dropped { &["C14", "C07"] } else if items[k].qos == 2 { P_C07_09 } else { P_C07 };
                 self.viol(
                     props,
                     format!("stream/item-mismatch/qos={}{}", items[k].qos, if dup { "/duplicate" } else { "" }),
@@ -1484,7 +1528,7 @@ impl World {
             }
             if items.len() > exp.len() {
                 let x = &items[exp.len()];
-                let props = if x.qos == 2 { P_C07_09 } else { P_C07 };
+                let props: &'static [&'static str] = if self.ctx_dropped { &["C14", "C07"] } else if x.qos == 2 { P_C07_09 } else { P_C07 };
                 self.viol(
                     props,
                     format!("stream/extra-item/qos={}", x.qos),
@@ -1495,8 +1539,9 @@ impl World {
             }
             if !held && self.sim.auto_streams && (serving || self.ctx_dropped) && items.len() < exp.len() {
                 let x = &exp[items.len()];
+                let props: &'static [&'static str] = if self.ctx_dropped { &["C14", "C07"] } else { P_C07 };
                 self.viol(
-                    P_C07,
+                    props,
                     format!("stream/missing-item/qos={}", x.qos),
                     format!("stream of op{i} yielded {} items at quiescence, the model expects {}: missing {}", items.len(), exp.len(), x.brief()),
                 );
